@@ -168,8 +168,17 @@ void seg_case(Ctx &c) {
                     if (sc.eps == 0) sc.eps = 1;
                 }
             }
+            if constexpr (is_int && sizeof(K) == 8) {
+                if (c.rng.chance(1, 45)) {
+                    // hulls of more than 2^16 vertices (see gen_gentle_curve), the long segment first or after others
+                    size_t n = 100000 + c.rng.below(c.thorough() ? 400000 : 150000);
+                    sc.keys = gen_gentle_curve<K>(c.rng, n, c.rng.chance(1, 2) ? 500 + c.rng.below(4000) : 0);
+                    sc.family = "gentle_curve_big_hull";
+                    if (c.rng.chance(2, 3)) sc.eps = c.rng.pick<size_t>({64, 128, 1024});
+                }
+            }
             if constexpr (is_int) {
-                if (c.rng.chance(1, 10) && sc.keys.size() >= 8 && sizeof(K) >= 4) {
+                if (c.rng.chance(1, 10) && sc.keys.size() >= 8 && sizeof(K) >= 4 && sc.family != "gentle_curve_big_hull" && sc.family != "slow_convex_long_segment") {
                     // points alternately on y+eps / y-eps of a line: x_i = g*i + (-1)^i * g*eps  (kept sorted)
                     using D = UDom<K>;
                     size_t n = sc.keys.size();
